@@ -33,6 +33,11 @@ def shard_fn(sh):
             if ws != [f'w{i}' for i in range(len(ws))]:
                 st.count('nontrivial')
             TP.check_formats(st, [[ScoredTree(tree, -0.5 * (1 + len(ws)))]], lang, formats, dict(lang=lang, tree=repr(t), words=ws, engine='c07'))
+            if (lo + st.c['trees']) % 7 == 0:
+                # the same derivation over tokens that lack most annotator attributes, rendered right after the fully annotated one
+                sparse = TP.make_tree(t, ws, lang, rich='sparse')
+                st.count('trees_sparse_tokens')
+                TP.check_formats(st, [[ScoredTree(sparse, -1.0)]], lang, formats, dict(lang=lang, tree=repr(t), words=ws, engine='c07', tokens='sparse'))
     else:
         # batch shapes: sentences x n-best; n-best lists share the token sequence
         default = [c for c in cs if c[2] == [f'w{i}' for i in range(len(c[2]))] and c[0] != 'small']
@@ -85,7 +90,9 @@ def replay(rec):
     import ast
     st = core.Stats()
     t = ast.literal_eval(rec['tree'])
-    tree = TP.make_tree(t, rec['words'], rec['lang'])
+    tree = TP.make_tree(t, rec['words'], rec['lang'], rich='sparse' if rec.get('tokens') == 'sparse' else True)
+    if rec.get('tokens') == 'sparse':
+        TP.check_formats(core.Stats(), [[ScoredTree(TP.make_tree(t, rec['words'], rec['lang']), -1.0)]], rec['lang'], [rec['fmt']], dict(words=rec['words']))
     TP.check_formats(st, [[ScoredTree(tree, -1.0)]], rec['lang'], [rec['fmt']], dict(lang=rec['lang'], tree=rec['tree'], words=rec['words']))
     print(TP.render([[ScoredTree(tree, -1.0)]], rec['fmt'])[:1500])
     for k, v in st.viol.items():
